@@ -20,13 +20,17 @@ func (poolmonView) Name() string  { return "poolmon" }
 func (poolmonView) MinKinds() int { return 1 }
 
 func (poolmonView) Gen(r *Rng, i int) string {
-	switch i % 3 {
+	switch i % 4 {
 	case 0:
-		return "poolmon 1" // healthy
+		// healthy, and the pool changes its role first (SetIsSlave, as the first topology load does for a replica
+		// listed as a seed): a role change releases the connections, it must not stop the monitor
+		return "poolmon 1 flip"
 	case 1:
 		return "poolmon 2" // first probe refused, second answered
-	default:
+	case 2:
 		return "poolmon 0" // dead
+	default:
+		return "poolmon 1" // healthy
 	}
 }
 
@@ -81,7 +85,8 @@ func startFakeNode(okFrom int) (*fakeNode, error) {
 
 func (v poolmonView) ExecModel(line string) (out string, oracle string, tags []string, modelLine string) {
 	f := strings.Fields(line)
-	if len(f) != 2 {
+	flip := len(f) == 3 && f[2] == "flip"
+	if len(f) != 2 && !flip {
 		return "bad-op", "", nil, line
 	}
 	okFrom := 0
@@ -96,8 +101,11 @@ func (v poolmonView) ExecModel(line string) (out string, oracle string, tags []s
 		return "bad-op", "", nil, line
 	}
 	defer env.Close()
-	pool := env.env.NewMonitoredPool(node.ln.Addr().String(), true)
+	pool := env.env.NewMonitoredPool(node.ln.Addr().String(), !flip)
 	defer pool.Close()
+	if flip {
+		pool.SetIsSlave(true)
+	}
 	pool.AutoBanFlag = true
 	pool.LiftBanTime = time.Now().Add(-time.Hour)
 	// one monitor cycle: tick after 5 s, first probe; on failure a 5 s pause and a second probe
@@ -121,6 +129,9 @@ func (v poolmonView) ExecModel(line string) (out string, oracle string, tags []s
 		p2 = 1
 	}
 	tags = []string{"dom:C20", fmt.Sprintf("node-answers-from-probe:%d", okFrom)}
+	if flip {
+		tags = append(tags, "role-change-before-probe")
+	}
 	if got != want {
 		oracle = fmt.Sprintf("C20: after a monitor cycle in which the node answered %d PING(s) (probes seen: %d) the pool's auto-ban flag is %v, expected %v: a healthy replica is not readmitted / a dead one not banned", atomic.LoadInt32(&node.pongs), atomic.LoadInt32(&node.conns), got, want)
 	}
